@@ -149,6 +149,19 @@ class VLoop(asyncio.SelectorEventLoop):
         self.transports = []
         self.creation_hook = None
         self._port = 40000
+        # callback-level crash points: every task step is scheduled through call_soon; a hook
+        # can be fired right after the k-th scheduled callback
+        self.steps_scheduled = 0
+        self.step_target = None
+        self.step_hook = None
+
+    def call_soon(self, callback, *args, context=None):
+        h = super().call_soon(callback, *args, context=context)
+        self.steps_scheduled += 1
+        if self.step_hook is not None and self.step_target is not None and self.steps_scheduled >= self.step_target:
+            hook, self.step_hook = self.step_hook, None
+            super().call_soon(hook)
+        return h
 
     def time(self):
         return self.clock()
